@@ -1081,6 +1081,69 @@ def frame_reindex_cases(ctx):
                    nontrivial=bool(ia) and (ni is not None or nc is not None))
 
 
+def hier_shared_cases(ctx):
+    """Hierarchies whose branches SHARE one inner Index object (IndexHierarchy.from_product, from_index_items with one
+    Index, level_add on top of them) against a hierarchy of the same shape that differs in one inner label of one
+    branch (every branch position), a same-label-set permutation, or an equal one -- in both operand orders:
+    set operations, Series op Series and Frame op Frame.  (An equality test that looks at shared inner objects only
+    once would pair such operands by position.)"""
+    import static_frame as sf
+    rng = ctx.rng
+    combos = []
+    for outer_kind, outers in (('str', ('a', 'b', 'c')), ('int', (0, 1, 2, 3))):
+        for inners in ((1, 2), (1, 2, 3), ('x', 'y')):
+            combos.append((outer_kind, outers, inners))
+    for outer_kind, outers, inners in combos:
+        for build in ('product', 'index_items', 'level_add'):
+            if build == 'product':
+                left = sf.IndexHierarchy.from_product(outers, inners)
+            elif build == 'index_items':
+                shared = sf.Index(inners)
+                left = sf.IndexHierarchy.from_index_items(tuple((o, shared) for o in outers))
+            else:
+                left = sf.IndexHierarchy.from_product(outers, inners).level_add('z')
+            ll = lit.labels(left)
+            fresh = 9 if not isinstance(inners[0], str) else 'q'
+            variants = [('equal', list(ll))]
+            for k in range(len(outers)):                      # one inner label replaced in branch k
+                lb = list(ll)
+                pos = k * len(inners) + rng.randrange(len(inners))
+                lb[pos] = lb[pos][:-1] + (fresh,)
+                variants.append((f'differs-in-branch-{k}', lb))
+            perm = []
+            for o in rng.sample(outers, len(outers)):         # same label set, other branch / inner order
+                sub = [t for t in ll if t[-2] == o]
+                perm.extend(rng.sample(sub, len(sub)))
+            variants.append(('permuted', perm))
+            for vname, lb in variants:
+                right = sf.IndexHierarchy.from_labels(lb)
+                same_dtypes = all(x == y for x, y in zip(left.dtypes.values, right.dtypes.values))
+                for a, b, la, lb_, order in ((left, right, ll, lb, 'shared-left'), (right, left, lb, ll, 'shared-right')):
+                    tags = {'kind': 'ih-shared', 'build': build, 'variant': vname, 'order': order}
+                    for opname, opcoq in OPS:
+                        obs, exc = _res_labels(lambda: getattr(a, opname)(b))
+                        ctx.count(f'ih-shared:{build}', f'ih-shared:{vname.split("-")[0]}', f'ih-shared:{order}')
+                        desc = {'call': f'{order}: A.{opname}(B)', 'A': repr(plain(la)), 'B': repr(plain(lb_)), 'shared_side_built_by': build,
+                                'observed': repr(plain(obs)) if exc is None else type(exc).__name__}
+                        if exc is not None:
+                            yield Case(f'api:index_hierarchy.{opname}:shared-inner', desc, py_fail=f'{opname} raised {type(exc).__name__}: {exc}', tags=dict(tags, op=opname))
+                            continue
+                        yield Case(f'api:index_hierarchy.{opname}:shared-inner', desc,
+                                   m=(f'MI2 {opcoq} OperandIndex {lit.b(same_dtypes)} {lit.dtype(a.values.dtype)} {lit.dtype(b.values.dtype)} '
+                                      f'{a.depth} {b.depth} {lit.vlist(la)} {lit.vlist(lb_)} (Ok {lit.vlist(obs)})'),
+                                   s=f'SI {opcoq} true {lit.vlist(la)} {lit.vlist(lb_)} {lit.vlist(obs)}', tags=dict(tags, op=opname),
+                                   nontrivial=vname != 'equal')
+                    # values by label: Series and a one-block Frame over the two hierarchies
+                    va = gen_values(rng, len(la), 'int', 'num')
+                    vb = gen_values(rng, len(lb_), 'int', 'num')
+                    sa, sb = sf.Series(va, index=a), sf.Series(vb, index=b)
+                    for opname in ('sub', 'eq'):
+                        yield from series_pair_cases(ctx, sa, sb, opname, 'ih-shared:' + build, 'api:series-op-series:shared-inner')
+                    fa = zoo.frame_from_columns([va, va + 1], ((2, True),), index=a, columns=make_index(('p', 'q'), 'str'))
+                    fb = zoo.frame_from_columns([vb, vb + 1], ((1, False), (1, True)), index=b, columns=make_index(('p', 'q'), 'str'))
+                    yield from frame_pair_cases(ctx, fa, fb, ['int', 'int'], ['int', 'int'], 'sub', 'api:frame-op-frame:shared-inner')
+
+
 def witnesses(ctx):
     """Fixed inputs: one minimal case per known finding (so that every listed finding is re-derived in every run)."""
     import static_frame as sf
@@ -1116,7 +1179,7 @@ def cases(ctx):
     only = os.environ.get('C06_ONLY')          # debugging aid: substring filter on the stratum name
     with warnings.catch_warnings():
         warnings.simplefilter('ignore')
-        for gen in (witnesses, index_exhaustive, index_random, index_hierarchy_cases, kernel_set_cases, kernel_correspondence_cases,
+        for gen in (witnesses, index_exhaustive, index_random, index_hierarchy_cases, hier_shared_cases, kernel_set_cases, kernel_correspondence_cases,
                     malformed_cases, series_exhaustive, series_random, series_scalar_array,
                     frame_layouts_exhaustive, frame_random, frame_series_cases, frame_scalar_array, frame_reindex_cases):
             for c in gen(ctx):
